@@ -4,7 +4,7 @@
 (* core (FxJudge / FxContract) plus the elementary functions and tables    *)
 (* (FxContractT, real-valued bounds through FxReal).  Full width only.     *)
 (***************************************************************************)
-EXTENDS FxJudge, FxContractT, FxContractF
+EXTENDS FxJudge, FxContractT, FxContractF, FxLaws
 
 LMT == INSTANCE FxLowT WITH Mach <- TRUE
 FidelityAll(e) == LMT!Fid(e)
@@ -26,4 +26,22 @@ JudgeAll(p, pv, e) ==
    ELSE IF \E d \in EnabledDeviations : Covers(d, p, e)
         THEN CHOOSE d \in EnabledDeviations : Covers(d, p, e)
         ELSE "violation"
+
+(* ---- laws over recorded programs (C17) ---- *)
+(* pr: the begin line of the program [prog, id, regs, f, n]; hist: recorded instructions [op, t, d, s, a, o] *)
+LawApplies(p, pr) == p = "C17" /\ pr.prog \in LawNames
+LawN(pr) == Dec("i64", pr.n)
+LawTail(pr) == LawTailOf(pr.prog, pr.regs[1], pr.regs[2], pr.regs[3], pr.f, LawN(pr))
+TailOf(pr, hist) == LET k == Len(LawTail(pr)) IN SubSeq(hist, Len(hist) - k + 1, Len(hist))
+LawShape(pr, hist) ==
+   LET T == LawTail(pr)  k == Len(T) IN
+   /\ Len(hist) >= k
+   /\ LET H == TailOf(pr, hist) IN
+      \A i \in 1..k : /\ H[i].op = T[i].op /\ H[i].t = T[i].t /\ H[i].d = T[i].d /\ H[i].s = T[i].s
+                      /\ \A q \in DOMAIN T[i].s : T[i].s[q] = 0 => H[i].a[q] = T[i].imm[q]
+LawOuts(pr, hist) == LET H == TailOf(pr, hist) IN [i \in 1..Len(H) |-> H[i].o]
+LawRelevant(pr, env, hist) == LawHyp(pr.prog, pr.regs[1], pr.regs[2], pr.regs[3], pr.f, LawN(pr), env, LawOuts(pr, hist))
+JudgeLaw(p, pr, env, hist) ==
+   IF LawRelevant(pr, env, hist) => LawConcl(pr.prog, pr.regs[1], pr.regs[2], pr.regs[3], pr.f, LawN(pr), env)
+   THEN "ok" ELSE "violation"
 =============================================================================
